@@ -13,7 +13,9 @@ RULE = ("each definition of a seeded stream is generated in separate processes u
         "the Python arglist and reading order are compared across all runs, and the skeleton read from the generated text is compared with "
         "the Lean skeleton; distinct by (definition, hash seed, permutation, container); non-trivial = permutation differs from the first run "
         "or hash seed differs")
-NOTE = ["theorem skeleton_perm covers what FormaK decides (orders); byte-identity of the expressions inside the bodies depends on sympy's "
+NOTE = ["every run's definition, exactly as declared in that run, goes through the Lean model of the emitted artifact (emitted_decl_order) and is "
+        "compared with the compiled Python filter's argument order, noise diagonals, sensor ids and reading slots",
+        "theorem skeleton_perm covers what FormaK decides (orders); byte-identity of the expressions inside the bodies depends on sympy's "
         "printers and cse/simplify being hash-seed independent, which is observed per run, not proven"]
 PARTIAL = ["hash-seed independence of sympy internals is observed on the sampled seeds only"]
 
@@ -41,6 +43,7 @@ def run(ctx):
         results = list(ex.map(worker, jobs))
     drv = core.Driver()
     pending = []
+    pending_emitted = []
     by_def = {}
     for job, res in zip(jobs, results):
         by_def.setdefault(job[1], []).append((job, res))
@@ -53,9 +56,15 @@ def run(ctx):
             if "error" in res:
                 ctx.fail("generation-raises", "code generation failed in a sub-process: " + res["error"][-300:], case)
                 continue
+            if res.get("regen_after_python_filter_same") is False:
+                ctx.fail("nondeterministic:regeneration-after-python-filter", "C++ generated from one model object differs before and after a Python "
+                         "filter was built from that same object (a generator changed the definition it was given)", case)
             if res.get("regen_same") is False:
                 ctx.fail("nondeterministic:regeneration-in-process", "generating the same definition twice in one process (with another "
                          "generation in between) gives different header/source bytes", case)
+            if "declared" in res:
+                idx = drv.add({"op": "emitted", "ekf": res["declared"]})
+                pending_emitted.append((idx, res, case))
             if ref is None:
                 ref = res
                 idx = drv.add({"op": "skeleton", "def": {"dt": "dt", "state": res["names"]["state"][::-1], "control": res["names"]["control"],
@@ -63,10 +72,11 @@ def run(ctx):
                                "sensors": [[s, list(res["py_readings"][s])[::-1]] for s in res["names"]["sensors"]]})
                 pending.append((idx, res, case))
                 continue
-            for field in ("header_sha", "source_sha", "py_arglist", "py_readings"):
+            for field in ("header_sha", "source_sha", "py_arglist", "py_readings", "adapter_transform"):
                 if res[field] != ref[field]:
                     what = {"header_sha": "C++ header", "source_sha": "C++ source", "py_arglist": "Python variable layout",
-                            "py_readings": "Python reading layout"}[field]
+                            "py_readings": "Python reading layout",
+                            "adapter_transform": "scikit-learn adapter's data-matrix layout (transform of one fixed matrix)"}[field]
                     same_seed = job[4] == runs[0][0][4]
                     ctx.fail(f"nondeterministic:{field}", f"{what} differs between two generations of the same definition "
                              f"(hash seed {runs[0][0][4]} vs {job[4]}, declaration permutation {runs[0][0][2]} vs {job[2]}, container {runs[0][0][3]} vs {job[3]})",
@@ -87,6 +97,21 @@ def run(ctx):
         if not ok:
             ctx.broke("correspondence:skeleton (generated text / Python layout vs Lean skeleton)",
                       {"model": m, "impl": {"state": impl_state, "options": opts, "arglist": res["py_arglist"], "ids": ids, "readings": res["py_readings"]}}, case)
+    from fractions import Fraction as F
+    for idx, res, case in pending_emitted:
+        a = ans[idx]
+        if "ok" not in a:
+            ctx.broke("driver:emitted", a, case); continue
+        m = a["ok"]
+        ctx.count("emitted_artifacts_compared")
+        impl = {"arglist": res["py_arglist"], "M": [float(x) for x in res["py_process_noise_diag"]],
+                "sensors": [{"key": k2, "readings": res["py_readings"][k2], "noise": [float(x) for x in res["py_sensor_noise_diag"][k2]]}
+                            for k2 in sorted(res["py_readings"])]}
+        model = {"arglist": m["arglist"], "M": [float(F(x)) for x in m["M"]],
+                 "sensors": [{"key": s2["key"], "readings": s2["readings"], "noise": [float(F(x)) for x in s2["noise"]]} for s2 in m["sensors"]]}
+        if impl != model or not res["py_process_noise_offdiag_zero"]:
+            ctx.broke("correspondence:emitted (argument order, noise diagonals, sensor ids, reading slots: Python filter vs Lean emitted artifact)",
+                      {"model": model, "impl": impl}, case)
     return core.finish(ctx, audit, NOTE, RULE, PARTIAL)
 
 
